@@ -331,7 +331,13 @@ def build_classes(rec, spec_mods, T):
         if spec.get('written'):
             ns['w'] = Parameter('written at start', FloatRange(), default=0, readonly=False)
 
-            def write_w(self, value):
+            wd, wo = spec.get('wscript', [0, 'ok'])
+
+            def write_w(self, value, _d=wd, _o=wo):
+                # the write of the configured value at start-up (inside writeInitParams, i.e. inside the 'init' call)
+                if _d:
+                    T.sleep(_d / TICKS)
+                _raise(_o)
                 return value
             ns['write_w'] = write_w
         if not spec.get('enabled', True):
@@ -842,6 +848,11 @@ def gen_case(rng, big, T):
         if rng.random() < 0.08:
             spec['enabled'] = False
             spec['written'] = True
+        elif rng.random() < 0.25:
+            spec['written'] = True
+        if spec.get('written'):
+            # the start-up write may take time and may fail in every way a read can
+            spec['wscript'] = [rng.choice([0, 0, 16, 256]), rng.choice(['ok', 'ok', 'ok'] + OUTCOMES[1:])]
         mods.append(spec)
     if not any(m.get('enabled', True) for m in mods):
         mods[-1]['enabled'] = True
@@ -1171,6 +1182,9 @@ def run(ctx):
         res.count('interval0' if zero_interval(case) else 'interval>0')
         res.count('failing-calls=%s' % ('0' if not fails else '1-9' if fails < 10 else '10+'))
         res.count('startup-abort' if model.get('aborted') else 'startup-complete')
+        for m in case['mods']:
+            if m.get('written'):
+                res.count('startup-write.' + m.get('wscript', [0, 'ok'])[1])
         res.count('events=%s' % ('<100' if len(evs) < 100 else '<1000' if len(evs) < 1000 else '1000+'))
         for m in obs['model_mods']:
             for d in m['decls']:
